@@ -533,7 +533,7 @@ Lemma pos_scope_set n p s : pos (scope_set n p s) = pos s.
 Proof. unfold scope_set. destruct (str_eqb _ _); [reflexivity|]. destruct (scs s); reflexivity. Qed.
 Lemma pos_mark n s : pos (mark n s) = pos s.
 Proof. reflexivity. Qed.
-Lemma pos_push_scope a b s : pos (push_scope a b s) = pos s.
+Lemma pos_push_scope a b c s : pos (push_scope a b c s) = pos s.
 Proof. reflexivity. Qed.
 Lemma pos_push_inherit b s : pos (push_inherit b s) = pos s.
 Proof. reflexivity. Qed.
@@ -576,7 +576,7 @@ Ltac pfact t :=
   | snd (validate_var_decl ?B ?n ?p ?a ?x) => pfact x; pose proof (pos_validate_var_decl B n p a x)
   | scope_set ?n ?p ?x => pfact x; pose proof (pos_scope_set n p x)
   | mark ?n ?x => pfact x; pose proof (pos_mark n x)
-  | push_scope ?a ?b ?x => pfact x; pose proof (pos_push_scope a b x)
+  | push_scope ?a ?b ?c ?x => pfact x; pose proof (pos_push_scope a b c x)
   | push_inherit ?b ?x => pfact x; pose proof (pos_push_inherit b x)
   | pop_scope ?x => pfact x; pose proof (pos_pop_scope x)
   | validate_scope ?x => pfact x; pose proof (pos_validate_scope x)
